@@ -50,7 +50,26 @@ type SVGImage struct {
 
 	// needed to draw text
 	cursorPosition, cursorDPosition point
+
+	// clip paths, masks (by id) and markers currently being drawn,
+	// used to ignore circular references
+	inUse map[interface{}]bool
 }
+
+// enter returns false if the definition [def] is already being drawn
+// (that is, it references itself); else it registers it until leave is called.
+func (svg *SVGImage) enter(def interface{}) bool {
+	if svg.inUse[def] {
+		return false
+	}
+	if svg.inUse == nil {
+		svg.inUse = make(map[interface{}]bool)
+	}
+	svg.inUse[def] = true
+	return true
+}
+
+func (svg *SVGImage) leave(def interface{}) { delete(svg.inUse, def) }
 
 // DisplayedSize returns the value of the "width" and "height" attributes
 // of the <svg> root element, which discribe the displayed size of the rectangular viewport.
@@ -119,8 +138,9 @@ func (svg *SVGImage) drawNode(dst backend.Canvas, node *svgNode, dims drawingDim
 		}
 
 		// clip
-		if cp, has := svg.definitions.clipPaths[node.clipPathID]; has {
+		if cp, has := svg.definitions.clipPaths[node.clipPathID]; has && svg.enter(cp) {
 			svg.applyClipPath(dst, cp, node, dims)
+			svg.leave(cp)
 		}
 
 		// Handle text anchor
@@ -191,8 +211,9 @@ func (svg *SVGImage) drawNode(dst backend.Canvas, node *svgNode, dims drawingDim
 		}
 
 		// apply mask
-		if ma, has := svg.definitions.masks[node.maskID]; has {
+		if ma, has := svg.definitions.masks[node.maskID]; has && svg.enter("mask:"+node.maskID) {
 			svg.applyMask(dst, ma, node, dims)
+			svg.leave("mask:" + node.maskID)
 		}
 
 		// do the actual painting :
@@ -306,7 +327,10 @@ func (svg *SVGImage) drawMarkers(dst backend.Canvas, vertices []vertex, node *sv
 			angle += math.Pi
 		}
 
-		// draw marker path
+		// draw marker path, ignoring a marker used in its own content
+		if !svg.enter(marker) {
+			continue
+		}
 		for _, child := range marker.children {
 			dst.OnNewStack(func() {
 				dst.State().Transform(matrix.Transform{A: scaleX, D: scaleY, E: vertex.x, F: vertex.y})
@@ -321,7 +345,7 @@ func (svg *SVGImage) drawMarkers(dst backend.Canvas, vertices []vertex, node *sv
 				svg.drawNode(dst, child, dims, paint)
 			})
 		}
-
+		svg.leave(marker)
 	}
 }
 
